@@ -225,6 +225,27 @@ def run_table(ctx):
                     continue
                 ctx.case((kind, text), True, 'table:' + label.split(':')[0])
     ctx.exhaustive['builtin-x-argument-shape-table'] = True
+    # every kind of reference (own field, alias field, indexed, nested field, bare quantified variable) at every typed
+    # position of the signature table: the parser must hand back a tree in which that operand sits inside the parameter type
+    from hplverif.checks import c05
+
+    refs = list(c05.TABLE_REFS) + [('quantified-variable', ('var', 'i'))]
+    for rname, r in refs:
+        for slot, mk, cond in c05.table_contexts(r):
+            if rname == 'quantified-variable':
+                if not (mk & typesig.PRIM) or any(n[0] == 'q' for n in mast.walk(cond)):
+                    continue
+                cond = ('q', 'forall', 'i', ('range', ('lit', 'int', '0'), mast.own('n9'), False, False) if mk & typesig.N else mast.own('v9'), cond)
+            inp = {'kind': 'condition', 'text': mast.render(cond)}
+            try:
+                a = sub_typed(inp)
+            except Violation as v:
+                ctx.report(v)
+                a = True
+            if a is None:
+                ctx.count('position-table:rejected-by-parser')
+                continue
+            ctx.case(('position', inp['text']), True, 'position-table:' + rname)
     for inp in alike_table():
         try:
             r = sub_alike(inp)
